@@ -2,64 +2,123 @@ import BfeVerif.C47.Model
 /-! Lemmas for C47 (core Lean only). -/
 namespace BfeVerif.C47
 
-/-- the per-direction invariant: nothing is lost, duplicated, altered or reordered -/
-def DirInv (d : Dir) (flushed : Bool) : Prop := d.out ++ d.pending flushed = d.pre ++ d.sent
+/-- per direction: written ++ unflushed prefix ++ copy buffer ++ socket queue = prefix ++ sent -/
+def DirInv (d : Dir) : Prop := d.out ++ (d.preLeft ++ (d.held ++ d.inq)) = d.pre ++ d.sent
 
-def Inv (s : St) : Prop := DirInv s.c2b s.flushed ∧ DirInv s.b2c s.flushed
+/-- relays only run after both prefixes were written completely -/
+def StageInv (s : St) : Prop :=
+  (s.stage = 1 → s.c2b.preLeft = []) ∧ (s.stage = 2 → s.c2b.preLeft = [] ∧ s.b2c.preLeft = []) ∧ s.stage ≤ 3
 
-theorem inv_init (pc pb : Bytes) : Inv (St.init pc pb false) := by
-  simp [Inv, DirInv, St.init, Dir.init, Dir.pending]
+def Inv (s : St) : Prop := DirInv s.c2b ∧ DirInv s.b2c ∧ StageInv s
 
-theorem inv_init_tls : Inv (St.init [] [] true) := by
-  simp [Inv, DirInv, St.init, Dir.init, Dir.pending]
+theorem inv_init (pc pb : Bytes) : Inv (St.init pc pb 0) := by
+  simp [Inv, DirInv, StageInv, St.init, Dir.init]
 
-theorem dir_send (d : Dir) (f : Bool) (bs : Bytes) (h : DirInv d f) :
-    DirInv { d with sent := d.sent ++ bs, inq := d.inq ++ bs } f := by
-  unfold DirInv Dir.pending at h ⊢
+theorem inv_init_tls : Inv (St.init [] [] 2) := by
+  simp [Inv, DirInv, StageInv, St.init, Dir.init]
+
+theorem dir_send (d : Dir) (bs : Bytes) (h : DirInv d) :
+    DirInv { d with sent := d.sent ++ bs, inq := d.inq ++ bs } := by
+  unfold DirInv at h ⊢
   have := congrArg (· ++ bs) h
   simpa [List.append_assoc] using this
 
-theorem dir_copy (d : Dir) (n : Nat) (h : DirInv d true) :
-    DirInv { d with inq := d.inq.drop n, out := d.out ++ d.inq.take n } true := by
-  unfold DirInv Dir.pending at h ⊢
+theorem dir_rd (d : Dir) (n : Nat) (r : Bool) (dn : Bool) (hh : d.held = []) (h : DirInv d) :
+    DirInv { d with inq := d.inq.drop n, held := d.inq.take n, rdErr := r, done := dn } := by
+  unfold DirInv at h ⊢
+  simpa [hh, List.append_assoc] using h
+
+theorem dir_wr (d : Dir) (k : Nat) (dn : Bool) (hp : d.preLeft = []) (h : DirInv d) :
+    DirInv { d with out := d.out ++ d.held.take k, held := d.held.drop k, done := dn } := by
+  unfold DirInv at h ⊢
+  simp only [hp, List.nil_append] at h ⊢
+  rw [List.append_assoc, ← List.append_assoc (d.held.take k), List.take_append_drop]
+  exact h
+
+theorem dir_wr_all (d : Dir) (dn : Bool) (hp : d.preLeft = []) (h : DirInv d) :
+    DirInv { d with out := d.out ++ d.held, held := [], done := dn } := by
+  unfold DirInv at h ⊢
+  simp only [hp, List.nil_append] at h ⊢
   simpa [List.append_assoc] using h
 
-theorem dir_flush (d : Dir) (h : DirInv d false) : DirInv { d with out := d.out ++ d.pre } true := by
-  unfold DirInv Dir.pending at h ⊢
+theorem dir_flush (d : Dir) (k : Nat) (h : DirInv d) :
+    DirInv { d with out := d.out ++ d.preLeft.take k, preLeft := d.preLeft.drop k } := by
+  unfold DirInv at h ⊢
+  simp only []
+  rw [List.append_assoc, ← List.append_assoc (d.preLeft.take k), List.take_append_drop]
+  exact h
+
+theorem dir_flush_all (d : Dir) (h : DirInv d) :
+    DirInv { d with out := d.out ++ d.preLeft, preLeft := [] } := by
+  unfold DirInv at h ⊢
   simpa [List.append_assoc] using h
+
+theorem dir_flag (d : Dir) (c dn : Bool) (h : DirInv d) : DirInv { d with srcClosed := c, done := dn } := h
+
+theorem live_stage (s : St) (toB : Bool) (h : s.live toB = true) : s.stage = 2 ∧ s.shut = false ∧ (s.get toB).done = false := by
+  simp [St.live] at h; exact ⟨h.1.1, h.1.2, h.2⟩
 
 theorem step_inv (s s' : St) (a : Step) (h : Inv s) (hs : step s a = some s') : Inv s' := by
-  obtain ⟨h1, h2⟩ := h
+  obtain ⟨h1, h2, h3⟩ := h
   cases a with
   | send toB bs =>
     cases toB <;> simp [step, St.get, St.set] at hs <;> obtain ⟨_, rfl⟩ := hs
-    · exact ⟨h1, dir_send _ _ bs h2⟩
-    · exact ⟨dir_send _ _ bs h1, h2⟩
+    · exact ⟨h1, dir_send _ bs h2, h3⟩
+    · exact ⟨dir_send _ bs h1, h2, h3⟩
   | close toB =>
     cases toB <;> simp [step, St.get, St.set] at hs <;> obtain ⟨_, rfl⟩ := hs
-    · exact ⟨h1, h2⟩
-    · exact ⟨h1, h2⟩
-  | flush =>
-    simp [step] at hs
-    obtain ⟨⟨hf, _⟩, rfl⟩ := hs
-    rw [hf] at h1 h2
-    exact ⟨dir_flush _ h1, dir_flush _ h2⟩
-  | copy toB n =>
-    cases toB <;> simp [step, St.get, St.set] at hs <;> obtain ⟨⟨hf, _⟩, rfl⟩ := hs <;> rw [hf] at h1 h2
-    · exact ⟨by simpa [hf] using h1, by simpa [hf] using dir_copy _ n h2⟩
-    · exact ⟨by simpa [hf] using dir_copy _ n h1, by simpa [hf] using h2⟩
+    · exact ⟨h1, h2, h3⟩
+    · exact ⟨h1, h2, h3⟩
+  | flushOk =>
+    simp only [step] at hs
+    split at hs
+    · simp at hs
+    · split at hs
+      · rename_i h0
+        simp at hs; subst hs
+        exact ⟨dir_flush_all _ h1, h2, by simp [StageInv]⟩
+      · split at hs
+        · rename_i h0 h1'
+          simp at hs; subst hs
+          exact ⟨h1, dir_flush_all _ h2, by simp [StageInv]; exact h3.1 h1'⟩
+        · simp at hs
+  | flushFail k =>
+    simp only [step] at hs
+    split at hs
+    · simp at hs
+    · split at hs
+      · simp at hs; subst hs
+        exact ⟨dir_flush _ k h1, h2, by simp [StageInv]⟩
+      · split at hs
+        · simp at hs; subst hs
+          exact ⟨h1, dir_flush _ k h2, by simp [StageInv]⟩
+        · simp at hs
+  | rd toB n =>
+    cases toB <;> simp [step, St.get, St.set] at hs <;> obtain ⟨⟨hl, hh, _⟩, rfl⟩ := hs
+    · exact ⟨h1, by simpa using dir_rd _ n _ _ hh h2, h3⟩
+    · exact ⟨by simpa using dir_rd _ n _ _ hh h1, h2, h3⟩
+  | rdE toB n =>
+    cases toB <;> simp [step, St.get, St.set] at hs <;> obtain ⟨⟨hl, hh, _⟩, rfl⟩ := hs
+    · exact ⟨h1, dir_rd _ n _ _ hh h2, h3⟩
+    · exact ⟨dir_rd _ n _ _ hh h1, h2, h3⟩
+  | wr toB =>
+    cases toB <;> simp [step, St.get, St.set] at hs <;> obtain ⟨⟨hl, _⟩, rfl⟩ := hs <;>
+      have hst := (live_stage _ _ hl).1
+    · exact ⟨h1, dir_wr_all _ _ (h3.2.1 hst).2 h2, h3⟩
+    · exact ⟨dir_wr_all _ _ (h3.2.1 hst).1 h1, h2, by simpa [StageInv] using h3⟩
+  | wrFail toB k =>
+    cases toB <;> simp [step, St.get, St.set] at hs <;> obtain ⟨⟨hl, _⟩, rfl⟩ := hs <;>
+      have hst := (live_stage _ _ hl).1
+    · exact ⟨h1, dir_wr _ k _ (h3.2.1 hst).2 h2, h3⟩
+    · exact ⟨dir_wr _ k _ (h3.2.1 hst).1 h1, h2, by simpa [StageInv] using h3⟩
   | eof toB =>
     cases toB <;> simp [step, St.get, St.set] at hs <;> obtain ⟨_, rfl⟩ := hs
-    · exact ⟨h1, h2⟩
-    · exact ⟨h1, h2⟩
-  | wfail toB =>
-    cases toB <;> simp [step, St.get, St.set] at hs <;> obtain ⟨_, rfl⟩ := hs
-    · exact ⟨h1, h2⟩
-    · exact ⟨h1, h2⟩
+    · exact ⟨h1, h2, h3⟩
+    · exact ⟨h1, h2, h3⟩
   | shutdown =>
     simp [step] at hs
     obtain ⟨_, rfl⟩ := hs
-    exact ⟨h1, h2⟩
+    exact ⟨h1, h2, h3⟩
 
 theorem run_inv (sched : List Step) (s : St) (h : Inv s) : Inv (runSched s sched) := by
   induction sched generalizing s with
@@ -70,38 +129,158 @@ theorem run_inv (sched : List Step) (s : St) (h : Inv s) : Inv (runSched s sched
     | none => simpa using ih s h
     | some s' => simpa using ih s' (step_inv s s' a h hs)
 
-/-- no relay-side step is enabled and the connections are still open ⇒ the relays are idle:
-    prefixes flushed, both socket queues empty, nobody terminated -/
-theorem rest_open (s : St) (hq : relayEnabled s = false) (hs : s.shut = false) :
-    s.flushed = true ∧ s.c2b.inq = [] ∧ s.b2c.inq = [] ∧ s.c2b.done = false ∧ s.b2c.done = false := by
-  simp only [relayEnabled, Bool.or_eq_false_iff] at hq
-  obtain ⟨⟨⟨⟨⟨hfl, hsh⟩, he1⟩, he2⟩, hc1⟩, hc2⟩ := hq
-  have hf : s.flushed = true := by
-    cases h : s.flushed
-    · simp [step, h, hs] at hfl
-    · rfl
-  have hd : s.c2b.done = false ∧ s.b2c.done = false := by
-    cases h1 : s.c2b.done <;> cases h2 : s.b2c.done <;> simp [step, hs, h1, h2] at hsh ⊢
-  refine ⟨hf, ?_, ?_, hd.1, hd.2⟩
-  · simp [step, St.get, hf, hs, hd.1] at hc1
-    cases h : s.c2b.inq with
-    | nil => rfl
-    | cons a t => simp [h] at hc1
-  · simp [step, St.get, hf, hs, hd.2] at hc2
-    cases h : s.b2c.inq with
-    | nil => rfl
-    | cons a t => simp [h] at hc2
+theorem step_pre (s s' : St) (a : Step) (hs : step s a = some s') :
+    s'.c2b.pre = s.c2b.pre ∧ s'.b2c.pre = s.b2c.pre := by
+  cases a with
+  | send toB bs => cases toB <;> simp [step, St.get, St.set] at hs <;> obtain ⟨_, rfl⟩ := hs <;> exact ⟨rfl, rfl⟩
+  | close toB => cases toB <;> simp [step, St.get, St.set] at hs <;> obtain ⟨_, rfl⟩ := hs <;> exact ⟨rfl, rfl⟩
+  | flushOk =>
+    simp only [step] at hs
+    repeat' (first | (simp at hs; done) | (simp at hs; subst hs; exact ⟨rfl, rfl⟩) | split at hs)
+  | flushFail k =>
+    simp only [step] at hs
+    repeat' (first | (simp at hs; done) | (simp at hs; subst hs; exact ⟨rfl, rfl⟩) | split at hs)
+  | rd toB n => cases toB <;> simp [step, St.get, St.set] at hs <;> obtain ⟨_, rfl⟩ := hs <;> exact ⟨rfl, rfl⟩
+  | rdE toB n => cases toB <;> simp [step, St.get, St.set] at hs <;> obtain ⟨_, rfl⟩ := hs <;> exact ⟨rfl, rfl⟩
+  | wr toB => cases toB <;> simp [step, St.get, St.set] at hs <;> obtain ⟨_, rfl⟩ := hs <;> exact ⟨rfl, rfl⟩
+  | wrFail toB k => cases toB <;> simp [step, St.get, St.set] at hs <;> obtain ⟨_, rfl⟩ := hs <;> exact ⟨rfl, rfl⟩
+  | eof toB => cases toB <;> simp [step, St.get, St.set] at hs <;> obtain ⟨_, rfl⟩ := hs <;> exact ⟨rfl, rfl⟩
+  | shutdown => simp [step] at hs; obtain ⟨_, rfl⟩ := hs; exact ⟨rfl, rfl⟩
 
-theorem rest_closed (s : St) (hq : relayEnabled s = false) (hc : s.c2b.srcClosed = true ∨ s.b2c.srcClosed = true) :
-    s.shut = true := by
+theorem run_pre (sched : List Step) (s : St) :
+    (runSched s sched).c2b.pre = s.c2b.pre ∧ (runSched s sched).b2c.pre = s.b2c.pre := by
+  induction sched generalizing s with
+  | nil => exact ⟨rfl, rfl⟩
+  | cons a rest ih =>
+    unfold runSched
+    cases hs : step s a with
+    | none => simpa using ih s
+    | some s' =>
+      have h1 := ih s'
+      have h2 := step_pre s s' a hs
+      simp only [Option.getD_some]
+      exact ⟨h1.1.trans h2.1, h1.2.trans h2.2⟩
+
+/-- an erroneous read whose bytes have been written (or that brought none) has terminated the relay -/
+def FlagD (d : Dir) : Prop := d.rdErr = true → d.held = [] → d.done = true
+def FlagInv (s : St) : Prop := FlagD s.c2b ∧ FlagD s.b2c
+
+theorem flag_init (pc pb : Bytes) (n : Nat) : FlagInv (St.init pc pb n) := by
+  simp [FlagInv, FlagD, St.init, Dir.init]
+
+theorem step_flag (s s' : St) (a : Step) (h : FlagInv s) (hs : step s a = some s') : FlagInv s' := by
+  obtain ⟨h1, h2⟩ := h
+  cases a with
+  | send toB bs => cases toB <;> simp [step, St.get, St.set] at hs <;> obtain ⟨_, rfl⟩ := hs <;> exact ⟨h1, h2⟩
+  | close toB => cases toB <;> simp [step, St.get, St.set] at hs <;> obtain ⟨_, rfl⟩ := hs <;> exact ⟨h1, h2⟩
+  | flushOk =>
+    simp only [step] at hs
+    repeat' (first | (simp at hs; done) | (simp at hs; subst hs; exact ⟨h1, h2⟩) | split at hs)
+  | flushFail k =>
+    simp only [step] at hs
+    repeat' (first | (simp at hs; done) | (simp at hs; subst hs; exact ⟨h1, h2⟩) | split at hs)
+  | rd toB n =>
+    cases toB <;> simp [step, St.get, St.set] at hs <;> obtain ⟨⟨_, _, hr, _⟩, rfl⟩ := hs
+    · exact ⟨h1, by intro h; simp [hr] at h⟩
+    · exact ⟨by intro h; simp [hr] at h, h2⟩
+  | rdE toB n =>
+    cases toB <;> simp [step, St.get, St.set] at hs <;> obtain ⟨⟨_, _, _, hn⟩, rfl⟩ := hs
+    · refine ⟨h1, ?_⟩
+      intro _ hh
+      simp at hh
+      simp; rcases hh with h | h
+      · exact h
+      · simp [h] at hn; exact hn
+    · refine ⟨?_, h2⟩
+      intro _ hh
+      simp at hh
+      simp; rcases hh with h | h
+      · exact h
+      · simp [h] at hn; exact hn
+  | wr toB =>
+    cases toB <;> simp [step, St.get, St.set] at hs <;> obtain ⟨_, rfl⟩ := hs
+    · exact ⟨h1, by intro h _; simpa using h⟩
+    · exact ⟨by intro h _; simpa using h, h2⟩
+  | wrFail toB k =>
+    cases toB <;> simp [step, St.get, St.set] at hs <;> obtain ⟨_, rfl⟩ := hs
+    · exact ⟨h1, by intro _ _; rfl⟩
+    · exact ⟨by intro _ _; rfl, h2⟩
+  | eof toB =>
+    cases toB <;> simp [step, St.get, St.set] at hs <;> obtain ⟨_, rfl⟩ := hs
+    · exact ⟨h1, by intro _ _; rfl⟩
+    · exact ⟨by intro _ _; rfl, h2⟩
+  | shutdown => simp [step] at hs; obtain ⟨_, rfl⟩ := hs; exact ⟨h1, h2⟩
+
+theorem run_flag (sched : List Step) (s : St) (h : FlagInv s) : FlagInv (runSched s sched) := by
+  induction sched generalizing s with
+  | nil => exact h
+  | cons a rest ih =>
+    unfold runSched
+    cases hs : step s a with
+    | none => simpa using ih s h
+    | some s' => simpa using ih s' (step_flag s s' a h hs)
+
+/-- no error-free relay-side step is enabled and the connections are still open ⇒ the relays are running and idle -/
+theorem rest_open (s : St) (h3 : s.stage ≤ 3) (hf : FlagInv s) (hq : relayEnabled s = false) (hs : s.shut = false) :
+    s.stage = 2 ∧ s.c2b.inq = [] ∧ s.b2c.inq = [] ∧ s.c2b.held = [] ∧ s.b2c.held = [] ∧
+    s.c2b.done = false ∧ s.b2c.done = false := by
+  simp only [relayEnabled, Bool.or_eq_false_iff] at hq
+  obtain ⟨⟨⟨⟨⟨⟨⟨hfl, hsh⟩, he1⟩, he2⟩, hr1⟩, hr2⟩, hw1⟩, hw2⟩ := hq
+  have hsh' : ¬ (s.stage = 3 ∨ s.c2b.done = true ∨ s.b2c.done = true) := by
+    intro hc; simp [step, hs, hc] at hsh
+  have hd1 : s.c2b.done = false := by cases h : s.c2b.done <;> simp_all
+  have hd2 : s.b2c.done = false := by cases h : s.b2c.done <;> simp_all
+  have hst : s.stage = 2 := by
+    by_cases h0 : s.stage = 0
+    · simp [step, hs, h0] at hfl
+    · by_cases h1 : s.stage = 1
+      · simp [step, hs, h0, h1] at hfl
+      · have : s.stage ≠ 3 := fun h => hsh' (Or.inl h)
+        omega
+  have hl1 : s.live true = true := by simp [St.live, hst, hs, St.get, hd1]
+  have hl2 : s.live false = true := by simp [St.live, hst, hs, St.get, hd2]
+  have hh1 : s.c2b.held = [] := by
+    cases h : s.c2b.held with
+    | nil => rfl
+    | cons a t => simp [step, St.get, hl1, h] at hw1
+  have hh2 : s.b2c.held = [] := by
+    cases h : s.b2c.held with
+    | nil => rfl
+    | cons a t => simp [step, St.get, hl2, h] at hw2
+  refine ⟨hst, ?_, ?_, hh1, hh2, hd1, hd2⟩
+  · cases h : s.c2b.inq with
+    | nil => rfl
+    | cons a t =>
+      exfalso
+      cases hr : s.c2b.rdErr
+      · simp [step, St.get, hl1, hh1, hr, h] at hr1
+      · have := hf.1 hr hh1; simp [hd1] at this
+  · cases h : s.b2c.inq with
+    | nil => rfl
+    | cons a t =>
+      exfalso
+      cases hr : s.b2c.rdErr
+      · simp [step, St.get, hl2, hh2, hr, h] at hr2
+      · have := hf.2 hr hh2; simp [hd2] at this
+
+theorem rest_closed (s : St) (h3 : s.stage ≤ 3) (hf : FlagInv s) (hq : relayEnabled s = false)
+    (hc : s.c2b.srcClosed = true ∨ s.b2c.srcClosed = true) : s.shut = true := by
   cases hs : s.shut
   · exfalso
-    obtain ⟨hf, hi1, hi2, hd1, hd2⟩ := rest_open s hq hs
+    obtain ⟨hst, hi1, hi2, hh1, hh2, hd1, hd2⟩ := rest_open s h3 hf hq hs
+    have hr1 : s.c2b.rdErr = false := by
+      cases hr : s.c2b.rdErr
+      · rfl
+      · have := hf.1 hr hh1; simp [hd1] at this
+    have hr2 : s.b2c.rdErr = false := by
+      cases hr : s.b2c.rdErr
+      · rfl
+      · have := hf.2 hr hh2; simp [hd2] at this
     simp only [relayEnabled, Bool.or_eq_false_iff] at hq
-    obtain ⟨⟨⟨⟨⟨_, _⟩, he1⟩, he2⟩, _⟩, _⟩ := hq
+    obtain ⟨⟨⟨⟨⟨⟨⟨_, _⟩, he1⟩, he2⟩, _⟩, _⟩, _⟩, _⟩ := hq
     rcases hc with h | h
-    · simp [step, St.get, hf, hs, hd1, h, hi1] at he1
-    · simp [step, St.get, hf, hs, hd2, h, hi2] at he2
+    · simp [step, St.get, St.live, hst, hs, hd1, hh1, hr1, h, hi1] at he1
+    · simp [step, St.get, St.live, hst, hs, hd2, hh2, hr2, h, hi2] at he2
   · rfl
 
 end BfeVerif.C47
